@@ -13,14 +13,14 @@ RULE = ("every outcome sequence of length L (L=6 quick, 8 thorough; all shorter 
         "oracle: the i-th request made on the multi-node client goes to node i mod n (retries of one request "
         "stay on its node); plus hypothesis-sampled sequences of length <=12 with more failure kinds (read timeout, "
         "non-list JSON error body, 401, arbitrary exception from the transport) and request styles (verb helpers, raw request, "
-        "stream=True, params, timeout, from a second thread) and node lists that name one endpoint several times; plus several clients obtained through the `<network>.pool` alias of one registered "
+        "stream=True, params, timeout, from a second thread, after displaying the client object) and node lists that name one endpoint several times; plus several clients obtained through the `<network>.pool` alias of one registered "
         "network and used in turn (each rotates on its own). Non-trivial: a failure is followed by another request and n>=2. Distinct = (n, sequence).")
 
 J = "application/json"
 OUTCOMES = ["ok", "404", "500", "exc", "retry-ok"]
 # sampled part: more failure kinds and request styles (the way the request is issued must not matter either)
 MORE_OUTCOMES = OUTCOMES + ["read-timeout", "bad-json-error", "401", "runtime-error"]
-STYLES = ["verb", "verb", "stream", "params", "timeout", "raw-request", "thread"]
+STYLES = ["verb", "verb", "stream", "params", "timeout", "raw-request", "thread", "shown", "shown"]
 URIS = ["http://a:1", "http://b:2", "http://c:3", "http://d:4"]
 VERBS = ["get", "post", "put", "delete"]
 
@@ -86,6 +86,9 @@ def oracle(case):
                     th.join()
                     if "e" in box:
                         raise box["e"]
+                elif style == "shown":   # the client object is displayed / logged before the request (repr, str, f-string)
+                    repr(node), str(node), "%s %r" % (node, node)
+                    getattr(node, verb)(path)
                 elif style == "stream":
                     node.request("GET", path, stream=True)
                 elif style == "params":
